@@ -24,13 +24,21 @@ def top_function(P, body):
     return P.crates[body.crate].by_raw.get(raw[:idx], body)
 
 
+FS_PROTOCOL = ('std::fs::rename', 'std::fs::File::create', 'std::fs::File::create_new',
+               '<File as Write>::write_all', '<File as Write>::write', '<BufWriter as Write>::write_all',
+               'std::fs::File::sync_all', 'std::fs::File::sync_data')
+
+
 # ------------------------------------------------------------------------------------ ORD-4
 def ord4_atomic_store(ctx):
     ctx.rule('ORD-4', 'atomic blob replace: create(tmp) < write_all < sync < rename(tmp -> path), '
                       'each step checked, success return only after rename', floor=5)
     P = ctx.P
-    bodies = [b for b in P.fn_bodies() if calls_matching(b, 'std::fs::rename')]
-    ctx.require(bodies, 'ORD-4: no body calls std::fs::rename (anchor of the atomic-replace protocol)')
+    # anchor: the outermost function of the protocol (its steps may live in extracted helpers,
+    # which are spliced in with return-variant threading, mirlib/inline.py)
+    tops = common.topmost_reaching(P, lambda n: n == 'std::fs::rename')
+    ctx.require(tops, 'ORD-4: no body calls std::fs::rename (anchor of the atomic-replace protocol)')
+    bodies = [common.inlined_anchor(P, b, lambda n: n in FS_PROTOCOL) for b in tops]
     ord4_on_bodies(ctx, bodies)
 
 
@@ -197,14 +205,34 @@ def ord3_ack_after_durable(ctx):
 
 
 # ------------------------------------------------------------------------------------ ORD-5 / FLW-4 / FLW-14
+FLUSH_STEPS = ('disk_store::storage::Storage::unflushed_wal_ids',
+               'disk_store::storage::Storage::persist_partitions',
+               'disk_store::storage::Storage::persist_partition',
+               'disk_store::storage::Storage::persist_metastore',
+               'disk_store::storage::Storage::delete_orphaned_partitions',
+               'disk_store::storage::Storage::delete_wal_segments',
+               'mem_store::table::Table::freeze_buffer',
+               'mem_store::table::Table::batch')
+
+
 def flush_functions(ctx):
+    """The flush function: the innermost function from which reading the unflushed range, the
+    catalogue write and the log deletion are all reachable; helpers that perform flush steps are
+    spliced in (mirlib/inline.py), so splitting the flush into phases does not move the anchor."""
+    cached = getattr(ctx, '_flush_functions', None)
+    if cached is not None:
+        return cached
     P = ctx.P
     sites = list(P.call_sites(lambda f: norm_callee(f) == 'disk_store::storage::Storage::delete_wal_segments'))
     ctx.require(sites, 'no caller of Storage::delete_wal_segments (anchor of the flush function)')
-    out = {}
-    for body, blk, t in sites:
-        out[body.name] = body
-    return list(out.values())
+    req = [lambda n: n == 'disk_store::storage::Storage::unflushed_wal_ids',
+           lambda n: n == 'disk_store::storage::Storage::persist_metastore',
+           lambda n: n == 'disk_store::storage::Storage::delete_wal_segments']
+    out = common.protocol_anchor(P, req, lambda n: n in FLUSH_STEPS)
+    ctx.require(out, 'no function contains the whole flush protocol (range read, catalogue write, '
+                     'log deletion)')
+    ctx._flush_functions = out
+    return out
 
 
 S = 'disk_store::storage::Storage::'
@@ -629,24 +657,34 @@ def who1_who_may_remove(ctx):
         top = top_function(P, body).name
         ctx.check('WHO-1', 'blob-delete|%s' % top, top in WHO_DELETE_CALLERS,
                   'BlobWriter::delete called from %s' % body.name, where(t))
-    flush = {f.name for f in flush_functions(ctx)}
+    ffs = flush_functions(ctx)
+    flush = {f.name for f in ffs}
+    # helpers spliced into the flush function (ORD-5 is decided on the spliced body) and called
+    # from nowhere else
+    parts = common.helper_closure(P, flush) & (flush | {n for f in ffs for n in getattr(f, 'inlined', [])})
     for callee in ('delete_wal_segments', 'delete_orphaned_partitions'):
         for body, blk, t in P.call_sites(lambda f, c=callee: norm_callee(f) == S + c):
-            ctx.check('WHO-1', '%s-caller|%s' % (callee, body.name), body.name in flush and
-                      bool(calls_matching(body, S + 'persist_metastore')),
+            host = body.name if body.name in flush else \
+                ('%s (phase of %s)' % (body.name, sorted(flush)[0]) if body.name in parts else body.name)
+            ctx.check('WHO-1', '%s-caller|%s' % (callee, body.name), body.name in parts and
+                      any(calls_matching(f, S + 'persist_metastore') for f in ffs),
                       'Storage::%s is called only from the flush function, which persists the '
-                      'catalogue first (ORD-5)' % callee, where(t))
+                      'catalogue first (ORD-5): %s' % (callee, host), where(t))
 
 
 def who2_who_may_write(ctx, table):
     ctx.rule('WHO-2', 'files are created/renamed only by the atomic store routine (+ tabled '
                       'non-database outputs)', floor=3)
     P = ctx.P
+    allowed = common.helper_closure(P, set(table))
     for body, blk, t in P.call_sites(lambda f: strip_generic_args(f) in WRITE_FNS):
         if blk.cleanup:
             continue
         top = top_function(P, body).name
         reason = table.get(top)
+        if reason is None and top in allowed:
+            hosts = sorted(x for x in table if x in allowed)
+            reason = 'helper called only from tabled writers'
         if reason is not None:
             ctx.exception('WHO-2', top, reason)
         ctx.check('WHO-2', '%s|%s' % (top, strip_generic_args(t.func).split('::')[-1]),
